@@ -19,7 +19,7 @@ EXTRA_DRAWS = 0      # the thorough tier of this property is long already: no ad
 
 BOUNDS = {
     "quick": "one step of: multiply / hadamard by every factor kind (update_full on/off), product, slice, update, normalize, get_density, get_marginal, condition_on, cond(x), update_Sigma, and the three affine transformations of every conditional kind; pre-state caches absent / supplied / populated by a query; D=2, R<=2, (Dx,Dy) in {(1,1),(2,1),(1,2)}; fully symbolic",
-    "thorough": "adds D=3 products with rank-one updates, R=3, (2,2) transformations semi-symbolic",
+    "thorough": "72 fixed operation sequences of length 3-8; adds D=3 products with rank-one updates, R=3, (2,2) transformations semi-symbolic",
 }
 ASSUMPTIONS = ["histories are covered by induction over one step from an arbitrary consistent pre-state, not by enumerating sequences; a counterexample from a pre-state no history reaches would mean the invariant is too weak (none occurred)"]
 
@@ -423,7 +423,7 @@ def history_cases(tier, seed):
     import random
     out = []
     rng = random.Random(1000)
-    n, lens = (24, (3, 4, 5)) if tier == "quick" else (24 + 96, (3, 4, 5, 6, 7, 8))
+    n, lens = (24, (3, 4, 5)) if tier == "quick" else (24 + 48, (3, 4, 5, 6, 7, 8))
     seen = set()
     while len(out) < n:
         if len(out) == 24:
